@@ -15,12 +15,12 @@ import (
 
 // typeSwitchInfo: one type switch with its tag type, cases and whether its default keeps the value.
 type typeSwitchInfo struct {
-	Tag        types.Type
-	Cases      map[*types.Named]bool
-	HasDefault bool
+	Tag              types.Type
+	Cases            map[*types.Named]bool
+	HasDefault       bool
 	DefaultUsesValue bool
 	DefaultFails     bool
-	Pos        string
+	Pos              string
 }
 
 func (c *Ctx) typeSwitches(fn *ssa.Function) []typeSwitchInfo {
@@ -222,6 +222,9 @@ func init() {
 			c.ruleDecodeProduces("E4.decode-produces", []string{"pkg/packet/bgp"}, 200)
 			c.ruleConfigAPISymmetry()
 			c.ruleStatementProvenance()
+			c.ruleCaseRatchet("E4.case-ratchet", []string{"pkg/apiutil", "pkg/config/oc", "pkg/server"}, func(f string) bool {
+				return !strings.Contains(f, "pkg/server/") || strings.HasSuffix(f, "grpc_server.go")
+			}, "baselines/switches.json", 50)
 			c.ruleLoopCarriedStruct("E2.loop-carried-struct", []string{"pkg/server", "pkg/config/oc", "pkg/apiutil"}, 5)
 		},
 	})
